@@ -82,7 +82,7 @@ func histExec(c core.Case) core.Case {
 		}
 		switch op {
 		case "skip":
-		case "set", "clear", "mut", "app", "trunc", "lset", "mset", "mdel", "setu":
+		case "set", "clear", "mut", "app", "trunc", "lset", "mset", "mdel", "setu", "setl":
 			m := target(o.m, core.List(s["at"]))
 			if op == "setu" {
 				m.SetUnknown(protoreflect.RawFields(core.Bytes(s["u"])))
@@ -96,6 +96,12 @@ func histExec(c core.Case) core.Case {
 				m.Clear(fd)
 			case "mut":
 				m.Mutable(fd)
+			case "setl": // replace the whole list by the literal's elements
+				m.Clear(fd)
+				l := m.Mutable(fd).List()
+				for _, ev := range core.List(core.Map(s["v"])["l"]) {
+					l.Append(single(fd, core.Map(ev), l.NewElement))
+				}
 			case "app":
 				l := m.Mutable(fd).List()
 				l.Append(single(fd, core.Map(s["v"]), l.NewElement))
